@@ -353,6 +353,7 @@ static void runString(const J& c) {
         else if (o == "insertSelf") s.insert(pos, s);
         else if (o == "insertSub") s.insert(pos, t, pos2, n);
         else if (o == "insertSubSelf") s.insert(pos, s, pos2, n);
+        else if (o == "insertRangeSelf") s.insert(s.begin() + pos, s.begin() + pos2, s.begin() + pos2 + n);
         else if (o == "insertN") s.insert(pos, n, ch);
         else if (o == "insertIt") { XalanDOMString::iterator it = s.insert(s.begin() + pos, ch); res = (long long)(it - s.begin()); }
         else if (o == "erase") s.erase(pos, n);
